@@ -122,6 +122,9 @@ class MatExec(SymExec):
                     if is_num(i, 0) and is_num(j) and j[1].denominator == 1 and 0 <= int(j[1]) < len(base.names):
                         return ("sample", base.names[int(j[1])])
                 raise Unsupported("sample array indexing")
+        if isinstance(node, ast.Attribute) and isinstance(node.value, ast.Name) and node.value.id == "self" \
+                and node.attr in self.self_scalars:
+            return ("var", node.attr)
         if isinstance(node, ast.List):
             return [self.ev(x) for x in node.elts]
         if isinstance(node, ast.Constant) and isinstance(node.value, str):
@@ -173,6 +176,11 @@ class MatExec(SymExec):
                 return ("integ", key[1], th, a)
             if isinstance(node.func, ast.Attribute) and isinstance(node.func.value, ast.Name) \
                     and node.func.value.id == "self" and not node.keywords:
+                if self.record_self_calls:
+                    args = [self.ev(x) for x in node.args]
+                    self.rec.calls.append({"attr": None, "method": node.func.attr, "args": args,
+                                           "target": self.pending_target, "src": ast.unparse(node)})
+                    return ("gate", len(self.rec.calls) - 1)
                 return self.inline_method(node.func.attr, [self.ev(x) for x in node.args])
             if isinstance(node.func, ast.Attribute) and isinstance(node.func.value, ast.Attribute) \
                     and isinstance(node.func.value.value, ast.Name) and node.func.value.value.id == "self" \
@@ -197,6 +205,8 @@ class MatExec(SymExec):
         return super().ev(node)
 
     pending_target = None
+    record_self_calls = False
+    self_scalars = ()
 
     def unique(self, name):
         used = {d.get("name") for d in self.rec.draws} | {n.rsplit("_", 1)[0] for d in self.rec.draws for n in d.get("names", [])}
